@@ -1086,6 +1086,16 @@ def directory_test(ctx, zb):
             for n in ast.walk(loop):
                 if isinstance(n, ast.If) and any(isinstance(x, ast.Continue) for b in n.body for x in ast.walk(b)):
                     conts.append(ast.unparse(n.test))
+    if vf is not None:
+        listed = {tg.id for n in ast.walk(vf) if isinstance(n, ast.Assign) and isinstance(n.value, ast.Call)
+                  and isinstance(n.value.func, ast.Attribute) and n.value.func.attr == "infolist"
+                  for tg in n.targets if isinstance(tg, ast.Name)}
+        rebound = {tg.id for n in ast.walk(vf) if isinstance(n, ast.Assign) and not (isinstance(n.value, ast.Call) and isinstance(
+            n.value.func, ast.Attribute) and n.value.func.attr == "infolist") for tg in n.targets if isinstance(tg, ast.Name)}
+        iters = [ast.unparse(n.iter) for n in ast.walk(vf) if isinstance(n, (ast.For, ast.comprehension))]
+        ok_iter = bool(iters) and all(i in listed and i not in rebound for i in iters)
+        ctx.obligation("X:every loop of validate_zipfile iterates the infolist() result itself (a list: no generator / filtered view that "
+                       "another statement could consume)", ok_iter, f"loop iterables: {iters}; bound to infolist(): {sorted(listed)}")
     ok_skip = vf is not None and all(c.replace(" ", "") == "_is_directory(info)" for c in conts) and len(conts) <= 1
     ctx.obligation("X:validate_zipfile skips entries only by `if _is_directory(info): continue`", ok_skip, f"skip conditions: {conts}")
 
@@ -1148,11 +1158,7 @@ def odf_samples():
     return odf_enc, odf_plain
 
 
-def guard_sessions(ctx, zb, ZipContext, pre):
-    rng = ctx.rng
-    default = zb.DEFAULT_ZIP_BOMB_LIMITS
-    low = zb.ZipBombLimits(3, 1000, 400, 10.0, 20.0)
-    lims = {"default": default, "low": low}
+def session_contents():
     base = make_zip([("a.txt", b"A" * 300), ("b/", b""), ("c.bin", bytes(range(256)) * 2)])
     base2 = make_zip([("x", b"hello"), ("y", b"")], deflate=False)
     contents = {"base": base, "base2": base2, "bomb-default": forge(base, {0: (500 * 9 + 1, 9)}),
@@ -1160,6 +1166,63 @@ def guard_sessions(ctx, zb, ZipContext, pre):
     odf_enc, odf_plain = odf_samples()
     contents.update({"odf-encrypted": odf_enc, "odf-plain": odf_plain,
                      "odf-encrypted-bomb": forge(odf_enc, {1: (500 * 9 + 1, 9)}), "truncated": base[: len(base) - 9]})
+    return contents
+
+
+def environment_sweeps(ctx, zb, ZipContext, pool):
+    """The guard's decision is a function of the container and the limits -- not of the logging level, the thread, the time
+    zone or the cwd (common.env_sweep): a sample of the lattice through validate_zipfile, every guard entry point on real ZIPs,
+    and every extractor on accepted and rejected variants."""
+    rng = ctx.rng
+    Z = zb.ZipBombLimits
+    lims = {"default": zb.DEFAULT_ZIP_BOMB_LIMITS, "low": Z(3, 1000, 400, 10.0, 20.0)}
+    # (1) validate_zipfile on lattice cases: as many rejected as accepted ones, every clause represented
+    rej = [c for c in pool if c[4] == 1]
+    acc = [c for c in pool if c[4] == 0]
+    rng.shuffle(rej)
+    rng.shuffle(acc)
+    by_clause = {}
+    for c in rej:
+        by_clause.setdefault(c[5], []).append(c)
+    sample = [c for cl in sorted(by_clause) for c in by_clause[cl][:12]][:160] + acc[:100]
+
+    def f_validate(case):
+        nm, fields, flat, nmode, _, _ = case
+        return impl_validate(zb, Z(*fields), [tuple(e) for e in flat], names_mode=nmode)
+    common.env_sweep(ctx, "validate_zipfile", f_validate, sample, describe=lambda c: f"limits {c[0]} entries {c[2][:6]} (clauses {c[5]})")
+    ctx.count("env:validate-cases-rejected", sum(1 for c in sample if c[4] == 1))
+    # (2) the guard entry points on real containers
+    contents = session_contents()
+    steps = [(c, op, ln) for c in contents for op, lns in (("validate_zip_bytesio", ("default", "low")), ("open_zipfile", ("default", "low")),
+                                                           ("ZipContext", ("default",)), ("is_odf_encrypted", ("default",))) for ln in lns]
+
+    def f_guard(case):
+        c, op, ln = case
+        return guard_call(zb, ZipContext, io.BytesIO(contents[c]), op, lims[ln])
+    common.env_sweep(ctx, "guard-entry-points", f_guard, steps)
+    # (3) the extractors on an accepted fixture and on rejected variants
+    table, ecases = {}, []
+    for fmt, fn, fixtures in container_extractors():
+        fx = fixtures[0]
+        variants = dict(forged_variants(fx.read_bytes(), lims["default"], False))
+        for v in ("plain", "entry-ratio+0", "entry-ratio+1", "zero-compressed", "single+1", "total-ratio+1", "total+1", "count+1",
+                  "attr-dosdir-bomb", "dup-name-last-bomb", "zip64-single+1"):
+            if v in variants:
+                table[(fmt, fx.name, v)] = (fn, variants[v])
+                ecases.append((fmt, fx.name, v))
+
+    def f_extract(case):
+        fn, data = table[case]
+        return run_extractor(fn, data, case[1])
+    common.env_sweep(ctx, "container-extractors", f_extract, ecases)
+
+
+def guard_sessions(ctx, zb, ZipContext, pre):
+    rng = ctx.rng
+    default = zb.DEFAULT_ZIP_BOMB_LIMITS
+    low = zb.ZipBombLimits(3, 1000, 400, 10.0, 20.0)
+    lims = {"default": default, "low": low}
+    contents = session_contents()
     oracles = {k: zip_entries(v) for k, v in contents.items()}
     is_zip = {k: bool(zipfile.is_zipfile(io.BytesIO(v))) for k, v in contents.items()}
     enc = {k: manifest_encrypted(v) for k, v in contents.items()}
@@ -1355,6 +1418,7 @@ def run(ctx):
     # ------------------------------------------------------------------ (a) validate_zipfile on the lattice
     pre = "From Coq Require Import ZArith List.\nImport ListNotations.\nFrom S2T Require Import C11.Model C11.Corr.\nOpen Scope Z_scope.\n"
     cases, info, quotients = [], [], set()
+    env_pool = []
     todo = []
     for name, L in limit_sets(zb):
         block = [(name, L, kind, es) for kind, es in lattice(ctx, name, L)]
@@ -1373,6 +1437,9 @@ def run(ctx):
         seen.add(h)
         nmode = 0 if len(flat) > 3000 else len(seen) % len(NAME_MODES)
         got = impl_validate(zb, L, flat, names_mode=nmode)
+        if len(flat) <= 10 and got in (0, 1) and name not in ("huge", "wide", "nan", "inf"):
+            env_pool.append((name, tuple(getattr(L, f_) for f_ in L.__dataclass_fields__), flat, nmode, got,
+                             "+".join(bomb_clauses(L, flat)) or "none"))
         nontriv = near_threshold(L, flat)
         ctx.case((name, h[1], nmode), nontriv, kind=f"validate:{name}:{kind}")
         ctx.count(f"names:{NAME_MODES[nmode]}")
@@ -1419,6 +1486,7 @@ def run(ctx):
         code = got if got in (0, 1, 2) else 9
         cases.append(f"({limits_coq(L)}, {entries_coq(es)}, {code})")
         info.append((name, repr(L), flat[:12], got))
+    environment_sweeps(ctx, zb, ZipContext, env_pool)
     lap("validate-impl")
     ok, failing, log = coq_eval_shards(ctx, "validate", pre, "corr_validate", cases, shard=400, ty="limits * list entry * Z")
     ctx.traces += len(cases)
